@@ -58,3 +58,11 @@ func VerifResetGlobalChannels(mergeConcurrency, samplerSlots int) {
 	mergeMaxConcurrencyCh = make(chan struct{}, mergeConcurrency)
 	samplerExecutionSlots = make(chan struct{}, samplerSlots)
 }
+
+// VerifSetStageBudgetOverride sets the package's own test seam testStageBudgetOverride (bytes staged per sampler
+// decision batch; 0 = derive from the memory limit as in production). Returns the previous value.
+func VerifSetStageBudgetOverride(n uint64) uint64 {
+	old := testStageBudgetOverride
+	testStageBudgetOverride = n
+	return old
+}
